@@ -17,7 +17,7 @@ import ast
 
 from .. import paths, storewalk, tables
 from ..model import AnalysisError, Project, self_attr, walk_no_nested
-from ..report import Result
+from ..report import Result, ctx_of
 from ..tables import RP
 from .common import site, src
 from .c13 import belt_store_classes
@@ -44,6 +44,7 @@ def run(p: Project, tier: str) -> Result:
 def check_spacing(p, r):
     seen = set()
     for s in belt_store_classes(p):
+        r.ctx = ctx_of(s)
         fi = s.methods['_do_reserve_put']
         if fi.key in seen:
             continue
@@ -230,6 +231,7 @@ def check_delay(p, r):
     # the travel delay stored with the item is waited in full before the item becomes ready
     seen = set()
     for s in belt_store_classes(p):
+        r.ctx = ctx_of(s)
         fi = s.methods['move_to_ready_items']
         if fi.key in seen:
             continue
